@@ -177,7 +177,8 @@ def flag_table(R, ctx, rid):
     """each ItemFlags::is_X tests the constant of its own name, and the constants are distinct single bits."""
     Y = ctx.yrs
     R.rule(rid + ".flags", "R-TABLE flag predicates: ItemFlags::is_countable / is_deleted / is_keep / is_linked / is_marked each call "
-                           "check(self, ITEM_FLAG_<same name>), and those constants are distinct single bits")
+                           "check(self, ITEM_FLAG_<same name>), every writer set_X / clear_X calls set / clear with ITEM_FLAG_X of its own "
+                           "name and nothing else, and those constants are distinct single bits")
     vals = {}
     for meth, const in sorted(FLAG_PREDICATES.items()):
         fn = Y.fns.get("yrs::block::ItemFlags::" + meth)
@@ -196,6 +197,26 @@ def flag_table(R, ctx, rid):
             if t[0] == "const":
                 vals[const] = t[1]
         R.ob(rid + ".flags", fn, "mask:" + meth, ok, "%s tests %s" % (meth, got))
+    # the writers: set_X / clear_X touch the bit of their own name and nothing else
+    nw = 0
+    for p_, fn in sorted(Y.fns.items()):
+        m = re.match(r"^yrs::block::ItemFlags::(set|clear)_(\w+)$", p_)
+        if not m or not fn.mir:
+            continue
+        op, flag = m.group(1), m.group(2).upper()
+        v = FnView(fn)
+        cs = fn.calls_to("yrs::block::ItemFlags::" + op)
+        others = [c for c in fn.calls() if re.search(r"ItemFlags::(set|clear)$", c.name) and c not in cs]
+        got = None
+        ok = False
+        if len(cs) == 1 and len(cs[0].args) == 2 and not others:
+            t = simp(v.arg(cs[0], 1))
+            got = t[2] if t[0] == "const" and len(t) > 2 else sshow(t, 4)
+            ok = t[0] == "const" and len(t) > 2 and str(t[2]).endswith("ITEM_FLAG_" + flag)
+        nw += 1
+        R.ob(rid + ".flags", fn, "mask:%s_%s" % (op, m.group(2)), ok, "%s_%s %ss %s" % (op, m.group(2), op, got) if ok else
+             "%s_%s %ss %s (and %d other flag call(s)) — not exactly ITEM_FLAG_%s: the wrong bit of the item is changed" % (op, m.group(2), op, got, len(others), flag))
+    R.floor(rid + ".flags", "ItemFlags::set_X / clear_X writers", nw, 4)
     ds = list(vals.values())
     R.ob(rid + ".flags", "yrs::block::ItemFlags", "distinct-bits", len(set(ds)) == len(ds) and all(isinstance(x, int) and x > 0 and x & (x - 1) == 0 for x in ds),
          "flag constants %s are distinct single bits" % vals)
